@@ -62,7 +62,9 @@ ReplyViol(e, fx) ==
               IF e.answers = <<>> \/ e.answers[1].applied # "seg" THEN {}
               ELSE (IF e.hang THEN {"C08/frontend/hang-on-segmented-reply/" \o e.op}
                     ELSE IF e.res # "ok" THEN {"C08/frontend/segmented-reply-rejected/" \o e.op \o "/" \o e.res}
-                    ELSE IF fx.await = "reply" /\ ~RetMatches(e) THEN {"C08/frontend/segmented-reply-decoded-differently/" \o e.op}
+                    \* (in terms of C01 as well: a conformant reply was not decoded to the values the peer encoded)
+                    ELSE IF fx.await = "reply" /\ ~RetMatches(e) THEN {"C08/frontend/segmented-reply-decoded-differently/" \o e.op,
+                                                                         "C01/frontend/decoded-value-differs/" \o e.op \o "/reply-arrived-in-pieces"}
                     ELSE {})
          ELSE IF e.peer = "cut"
          THEN \* C08: the stream ends inside the correct reply: an error, not a success, and no indefinite wait
